@@ -1,4 +1,5 @@
 import Nsq.Proofs.ProtoV2
+import Nsq.Proofs.ProtoSpec
 import Nsq.Proofs.Names
 import Nsq.Proofs.Base10
 /-!
@@ -43,6 +44,40 @@ example : ioLoop Examples.conf Examples.conn (magicV2 ++ ascii "PUB t\n" ++ [0, 
 example : ioLoop Examples.conf Examples.conn (magicV2 ++ ascii "PUB t\n" ++ [255, 255, 255, 255]) =
     ([.err .E_BAD_MESSAGE], .closed) := by decide
 example : ioLoop Examples.conf Examples.conn (ascii "  V1") = ([.err .E_BAD_PROTOCOL], .closed) := by decide
+
+/-! ## 2. Every answer is the documented one -/
+
+/-- Each command is answered as the declarative table `Spec.ProtoSpec.allowed` says: the success
+reply exactly when the command instance has no defect; otherwise the documented `E_*` code of one
+of its defects, and the connection is closed exactly when that code's class is fatal. The table
+judges every defect on its own (no order of checks); the only non-fatal codes are
+E_FIN_FAILED / E_REQ_FAILED / E_TOUCH_FAILED. -/
+theorem answers_refine_spec (conf : Conf) (s : ConnState) (b : Broker) (ps : List Bytes) (rest : Bytes)
+    (hps : ps ≠ []) :
+    answer conf s ps rest (exec conf s b ps rest).reply (decide ((exec conf s b ps rest).ctl = .close)) :=
+  Nsq.Proofs.ProtoSpec.exec_refines conf s b ps rest hps
+
+/-- `bytes.Split` never hands `Exec` an empty parameter list, so the theorem above applies to every
+line the loop reads. -/
+theorem split_nonempty (l : Bytes) : splitSp l ≠ [] := Nsq.Proofs.ProtoSpec.splitSp_ne_nil l
+
+/-- The codes and classes an error answer can have, as sets tied to the `New(Fatal)ClientErr` call
+sites by `Nsq.Tie.Proto.fatal_codes_have_sites` / `nonfatal_codes_have_sites`. -/
+theorem error_codes_and_classes (conf : Conf) (s : ConnState) (b : Broker) (ps : List Bytes) (rest : Bytes) (c : Code)
+    (hauth : AuthGateOk conf) (h : (exec conf s b ps rest).reply = some (.err c)) :
+    ((exec conf s b ps rest).ctl = .close ∧ c ∈ modelFatal) ∨
+    ((exec conf s b ps rest).ctl = .cont ∧ c ∈ modelNonFatal) :=
+  exec_codes conf s b ps rest c hauth h
+
+example : answer Examples.conf Examples.conn [cPUB, ascii "bad!"] [0, 0, 0, 1, 97] (some (.err .E_BAD_TOPIC)) true := by
+  unfold answer; decide
+example : ¬ answer Examples.conf Examples.conn [cPUB, ascii "bad!"] [0, 0, 0, 1, 97] (some .ok) false := by
+  unfold answer; decide
+example : answer Examples.conf Examples.conn [cPUB, ascii "t"] [0, 0, 0, 1, 97] (some .ok) false := by
+  unfold answer; decide
+-- a bad name AND a bad size: either documented code is allowed (the table has no order of checks)
+example : allowed Examples.conf Examples.conn [cPUB, ascii "bad!"] [0, 0, 0, 0] =
+    [(some (.err .E_BAD_TOPIC), true), (some (.err .E_BAD_MESSAGE), true)] := by decide
 
 /-! ## 3. Limits -/
 
